@@ -38,8 +38,22 @@ var (
 	Yield func(a Access)
 	// Record, if set, receives every access (sequential monitors).
 	Record func(a Access)
+	// Wait, if set (by the explorer, during a concurrent phase), parks the running thread until cond
+	// holds; the scheduler does not choose a parked thread whose condition is false.
+	Wait   func(cond func() bool, what string)
 	nextID uint64
 )
+
+// WaitUntil is called by the sync shim when the running goroutine cannot go on before cond holds.
+func WaitUntil(cond func() bool, what string) {
+	if Active && Wait != nil {
+		Wait(cond, what)
+		return
+	}
+	if !cond() {
+		panic("deadlock: " + what + " waits for something only another goroutine can do, outside a concurrent phase")
+	}
+}
 
 func New() Obj {
 	nextID++
